@@ -6,6 +6,7 @@
 mod logic;
 mod num;
 mod progs;
+mod rnd;
 mod specs;
 mod term;
 
